@@ -23,7 +23,7 @@ pub fn spec() -> Spec {
         case_cap_s: |t| t.pick(900, 14400),
         rule: "one case per admissible 3-dimensional symbol (spherical tiles and vertex figures by the reference model, branching in {1,2,3,4,6}) on every class of D-sets of size <= M, plus the 20 corpus symbols. Per case: the verdict under EVERY schedule of the simplify choice point with at most 1 deviation (G3; symbols that never reach simplify have the single empty schedule); the verdict of every relabeling (all for size <= 3, systematic family above), of the dual and of every entry of covers(s, k) that the reference model accepts as an admissible covering. Oracle: a verdict is returned (no panic, no time-out); the verdict class is the same across schedules, relabelings and dual; never yes on a symbol and no on one of its covers or vice versa; every yes is re-derived: pseudo_toroidal_cover is a finite oriented branch-free covering (reference model), its H1 is Z^3 (textbook presentation + invariant factors) and it has 7 / 13 classes of subgroups of index 2 / 3; every corpus symbol gets yes. Non-trivial = the symbol passes the invariant filter (reaches the cover construction) or is a corpus symbol.",
         assumptions: &["the completeness of the table of space-group invariants (src/data/euclideanInvariants.data) cannot be re-derived offline; what is checked is totality, invariance, cover-consistency, certificate soundness of every yes, and the corpus", "covers(s, k) supplies covers; each is verified to be a covering of the symbol by the reference model", "the 7/13 subgroup counts of a certificate use the crate's presentation and low-index enumeration (validated by C09/C12)"],
-        bounds: |t| json!({"admissible_max_size": t.pick(3, 4), "choice_deviation_bound": 1, "cover_sheets": t.pick(2, 3)}),
+        bounds: |t| json!({"admissible_max_size": t.pick(3, 4), "choice_deviation_bound": 1, "cover_sheets": t.pick(2, 3), "cover_sheets_above_a_yes_symbol_of_at_most_6_chambers": t.pick(4, 6), "such_covers_have_at_most_chambers": t.pick(12, 18)}),
     }
 }
 
@@ -157,12 +157,16 @@ fn check_symbol(ctx: &mut Ctx, family: &str, s: &RS, corpus: bool) {
         }
     }
     // covers
-    let k = ctx.tier.pick(2, 3);
-    let list = match ctx.guard(|| covers(&to_partial_dsym(s), k).iter().map(|c| from_dsym(c)).collect::<Vec<_>>()) {
-        Ok(l) => l,
-        Err(_) => vec![], // C05's business
-    };
+    // a symbol reported euclidean is followed further up its covers (every space group type below it must be
+    // recognised too): up to 4 [6] sheets as long as the cover has at most 12 [18] chambers
+    let deep = base.class() == 'Y' && s.n <= 6;
+    let k = if deep { ctx.tier.pick(4, 6) } else { ctx.tier.pick(2, 3) };
+    let max_cover = if deep { ctx.tier.pick(12, 18).max(3 * s.n) } else { usize::MAX };
+    let list = ctx.supply("covers", || covers(&to_partial_dsym(s), k).iter().map(|c| from_dsym(c)).collect::<Vec<_>>());
     for c in list.into_iter().flatten() {
+        if c.n > max_cover {
+            continue;
+        }
         if c.n == s.n || valid_symbol(&c).is_err() || !c.commutes() || !admissible3d(&c) || c.covers(s).is_none() {
             continue;
         }
